@@ -5,6 +5,7 @@ import MimicProofs.Wire
 import MimicProofs.PacketsCode
 import Mimic.Extracted.Handlers
 import Mimic.Extracted.Protocol
+import MimicProofs.HandlersCode
 /-!
 # C03 — Every command gets exactly one complete, well-formed response (lockstep)
 
@@ -492,5 +493,67 @@ theorem protocol_constants :
     (["CURSOR_TYPE_READ_ONLY", "PARAMETER_COUNT_AVAILABLE"].map (fun n => Mimic.Extracted.Protocol.executeFlags.lookup n))
       = [some 1, some 8] := by
   decide +kernel
+
+/-! ### the handler scripts are the code's write / drain skeleton (`Mimic.Extracted.HandlersCode`, `harness/pytrans3.py`)
+
+The scripts of `Mimic.Script` — what the response theorems above quantify over — are hand-written.  For the handlers that
+are translated statement by statement from `connection.py` on every run, the script's *wire skeleton* (which operations
+put a packet into the write buffer, where the flush points are: `opShape`) is **derived** from the translated code
+(`evShape` of the effects it performs), for every number of columns, parameters and rows and both EOF conventions.
+`parse` / `app` / `coldef` are arbitrary (the parser, the application, the column encoder). -/
+section code
+open Mimic.Extracted.HandlersCode MimicProofs.HandlersCode
+variable {S : Type} [DecidableEq S]
+
+theorem query_script_is_code (E : Mimic.Py.Env S) (coldef : Nat → Nat → Mimic.Py.Bytes) (app : S → Option (ResultSet S)) (c : Connection S)
+    (data : Mimic.Py.Bytes) (q : Mimic.Extracted.ParsersCode.ComQuery S) (rs : ResultSet S)
+    (hp : Mimic.Extracted.ParsersCode.parse_com_query E c.capabilities c.client_charset data = some q) (ha : app q.sql = some rs)
+    (hb : rs.rows.boom = false) :
+    ∃ c' tail, handle_query E coldef app c data = .ok c' ∧ c'.out = c.out ++ tail ∧
+      evShape tail = opShape (Mimic.Script.scriptOf (deprecate_eof c)
+        (.query { ncols := rs.columns.length, rows := plainRows rs.rows.rows.length })) :=
+  MimicProofs.HandlersCode.query_script_is_code E coldef app c data q rs hp ha hb
+
+theorem execute_script_is_code (coldef : Nat → Nat → Mimic.Py.Bytes) (parse : Connection S → Mimic.Py.Bytes → Option (ComStmtExecute S))
+    (app : S → Option (ResultSet S)) (c : Connection S) (data : Mimic.Py.Bytes) (x : ComStmtExecute S) (rs : ResultSet S)
+    (hp : parse c data = some x) (ha : app x.sql = some rs) (hb : rs.rows.boom = false) :
+    ∃ c' tail, handle_stmt_execute coldef parse app c data = .ok c' ∧ c'.out = c.out ++ tail ∧
+      evShape tail = opShape (Mimic.Script.scriptOf (deprecate_eof c)
+        (.execute true x.use_cursor { ncols := rs.columns.length, rows := plainRows rs.rows.rows.length })) :=
+  MimicProofs.HandlersCode.execute_script_is_code coldef parse app c data x rs hp ha hb
+
+theorem prepare_script_is_code (E : Mimic.Py.Env S) (cp : S → Nat) (pc : Nat → Mimic.Py.Bytes) (c : Connection S) (data : Mimic.Py.Bytes) (sql : S)
+    (hd : E.decode c.client_charset data = some sql) :
+    ∃ c' tail, handle_stmt_prepare E cp pc c data = .ok c' ∧ c'.out = c.out ++ tail ∧
+      evShape tail = opShape (Mimic.Script.scriptOf (deprecate_eof c) (.prepare (cp sql))) :=
+  MimicProofs.HandlersCode.prepare_script_is_code E cp pc c data sql hd
+
+theorem ping_script_is_code (c : Connection S) (data : Mimic.Py.Bytes) (dep : Bool) :
+    ∃ c' tail, handle_ping c data = .ok c' ∧ c'.out = c.out ++ tail ∧ evShape tail = opShape (Mimic.Script.scriptOf dep .ping) :=
+  MimicProofs.HandlersCode.ping_script_is_code c data dep
+
+/-- **COM_QUERY, on the translated code**: nothing is written for a malformed packet or a raising application; one OK
+    without result set; otherwise count, definitions, metadata EOF unless deprecated, the rows, one terminator, one drain;
+    a row source raising in the middle leaves exactly the rows before it (the one ERR is the command loop's) -/
+theorem query_response_is_code (E : Mimic.Py.Env S) (coldef : Nat → Nat → Mimic.Py.Bytes) (app : S → Option (ResultSet S)) (c : Connection S)
+    (data : Mimic.Py.Bytes) :
+    match Mimic.Extracted.ParsersCode.parse_com_query E c.capabilities c.client_charset data with
+    | none => handle_query E coldef app c data = .error c
+    | some q =>
+      match app q.sql with
+      | none => handle_query E coldef app c data = .error c
+      | some rs =>
+        if rs.columns.isEmpty then
+          ∃ (e : Bool) (a l w f : Nat), handle_query E coldef app c data = .ok { c with out := c.out ++ [Ev.write (ok c e a l w f) true] }
+        else
+          ∃ (w f l w2 fl : Nat),
+            let pre := if deprecate_eof c then [] else [Ev.write (eof c w f) false]
+            let sent := c.out ++ queryMeta coldef c rs ++ pre ++ rs.rows.rows.map (fun p => Ev.write p false)
+            handle_query E coldef app c data
+              = if rs.rows.boom then .error { c with out := sent }
+                else .ok { c with out := sent ++ [Ev.write (ok_or_eof c rs.rows.rows.length l w2 fl) false, Ev.drain] } :=
+  handle_query_spec E coldef app c data
+
+end code
 
 end MimicProps.C03
